@@ -7,6 +7,7 @@
 # ends at / straddles a boundary and is not the last list element.
 import vlib
 
+BLOB = 3 * 4096 + 512             # harness/c03_patch.c
 SIZES = (1, 2, 4, 6, 8, 13, 15)   # rel32, rex call rel32, absolute address, thunk patterns
 
 
@@ -17,8 +18,25 @@ def gen_cases(rng, quick):
             for off in range(pg - n - 1, pg + 2):
                 cases.append('C %d %d' % (off, n))
         cases.append('C 0 %d' % n)
+    # (wave 6) every position relative to a page end for patches of one byte up to three pages: ending one byte before
+    # / exactly at / one byte after a page end, beginning exactly at / one byte before / after a page start, covering
+    # exactly 1, 2, 3 whole pages and a byte more or less
+    for n in (1, 3, 8, 16, 64, 100, 4095, 4096, 4097, 8191, 8192, 8193, 12287, 12288):
+        for pg in (0, 4096, 8192, 12288):
+            for d in (-2, -1, 0, 1, 2):
+                for off in (pg + d, pg + d - n):     # begins at pg+d  /  ends at pg+d
+                    if off >= 0 and off + n <= BLOB:
+                        cases.append('C %d %d' % (off, n))
     for _ in range(60 if quick else 2000):
         cases.append('C %d %d' % (rng.randrange(0, 3 * 4096 + 400), rng.choice(SIZES)))
+    for _ in range(30 if quick else 1000):
+        n = rng.choice((rng.randrange(1, 64), rng.randrange(64, 4096), rng.randrange(4096, 3 * 4096)))
+        cases.append('C %d %d' % (rng.randrange(0, BLOB - n + 1), n))
+    for b in (0, 1, 4095, 4096, 4097, 8192):    # one relocation word at every position around each later page end
+        for end in (4096, 8192, 12288):
+            for d in range(-9, 10):
+                if end + d - 8 - b >= 0 and end + d <= BLOB:
+                    cases.append('U %d %d' % (b, end + d - 8 - b))
     for b in (0, 16, 100, 4090, 4096):
         for end in (4096, 8192, 12288):
             for d in range(-9, 3):
@@ -49,25 +67,72 @@ def covered(d):
     return (st // pg * pg, (st + ln + pg - 1) // pg * pg)
 
 
+def model_line(c, o):
+    d = kv(o)
+    w = c.split()
+    if 'addr' not in d or 'page' not in d:
+        return ''
+    if w[0] == 'C':
+        return 'C %s %s %s' % (d['page'], d['addr'], d['n'])
+    return 'U %s %s %s' % (d['page'], d['addr'], ' '.join('%x' % int(x) for x in w[2:]))
+
+
+def judge(c, o, m):
+    """-> None or what is wrong with the implementation's answer O to case C (M: the model's answer)"""
+    d, md = kv(o), kv(m)
+    if 'CRASH' in o:
+        return 'the patch faults (%s): the page of its last byte was not made writable' % o.split()[-1]
+    if not md or 'start' not in d:
+        return 'no answer'
+    if d.get('nreq') != '1':
+        return '%s write-enable requests for one patch' % d.get('nreq')
+    if covered(d) != (int(md['lo'], 16), int(md['hi'], 16)):
+        return 'write-enable request (start %s, len %s) covers pages [%x, %x), the verified model [%s, %s)' % (
+            (d['start'], d['len']) + covered(d) + (md['lo'], md['hi']))
+    if (int(d['start'], 16), int(d['len'], 16)) != (int(md['start'], 16), int(md['len'], 16)):
+        # (wave 6) the request itself, start and length, is the theorem's (change_code_request_exact): a code
+        # allocator is handed these two numbers, not a page range
+        return 'write-enable request (start %s, len %s), the verified model (start %s, len %s)' % (
+            d['start'], d['len'], md['start'], md['len'])
+    if d.get('nreq2') != '1' or d.get('order') != '1':
+        return '%s read+exec requests closing one patch (in order: %s)' % (d.get('nreq2'), d.get('order'))
+    if (d['start2'], d['len2']) != (d['start'], d['len']):
+        return 'the read+exec request (start %s, len %s) is not the write+exec request (start %s, len %s)' % (
+            d['start2'], d['len2'], d['start'], d['len'])
+    if d.get('ok') != '1':
+        return 'the patched bytes do not read back / neighbouring bytes changed'
+    return None
+
+
+def run_impl(chk, impl, cases):
+    """answers of the harness; a harness that does not come back within its time limit -> the hanging case is named
+    (cases re-run singly with a short limit) and reported as a finding; returns None then"""
+    rc, out, err = vlib.run_lines(impl, cases, timeout=120)
+    if rc == 124:
+        for c in cases:
+            rc1, o1, e1 = vlib.run_lines(impl, [c], timeout=10)
+            if rc1 == 124:
+                chk.finding('hang:patch:' + c.replace(' ', '_'), dict(kind='patch', case=c, impl='HANG', model=''),
+                            'patching published code, %s: the patch does not return within 10 s (HANG)' % c)
+                return None
+        chk.finding('hang:patch', dict(kind='patch', case=cases[0], impl='HANG', model=''),
+                    'patching published code: %d patches do not finish within 120 s (each alone does)' % len(cases))
+        return None
+    if len(out) != len(cases):
+        raise vlib.BuildError('c03_patch: %d answers for %d requests: %s' % (len(out), len(cases), err[-300:]))
+    return out
+
+
 def run(chk, model):
     """-> True when a finding was made"""
     impl = vlib.build_harness('c03_patch', ['c03_patch.c'], units=('mir',))
     rng = chk.rng('patch')
     cases = gen_cases(rng, chk.tier == 'quick')
-    rc, out, err = vlib.run_lines(impl, cases)
-    if len(out) != len(cases):
-        raise vlib.BuildError('c03_patch: %d answers for %d requests: %s' % (len(out), len(cases), err[-300:]))
-    mlines = []
-    for c, o in zip(cases, out):
-        d = kv(o)
-        w = c.split()
-        if 'addr' not in d or 'page' not in d:
-            mlines.append('')
-        elif w[0] == 'C':
-            mlines.append('C %s %s %s' % (d['page'], d['addr'], d['n']))
-        else:
-            mlines.append('U %s %s %s' % (d['page'], d['addr'], ' '.join('%x' % int(x) for x in w[2:])))
-    rc2, mout, merr = vlib.run_lines(model, mlines)
+    out = run_impl(chk, impl, cases)
+    if out is None:
+        return True
+    mlines = [model_line(c, o) for c, o in zip(cases, out)]
+    rc2, mout, merr = vlib.run_lines(model, mlines, timeout=120)
     if rc2 != 0 or len(mout) != len(mlines):
         raise vlib.BuildError('model driver failed on patch cases: %s' % merr[-300:])
     found = 0
@@ -77,20 +142,11 @@ def run(chk, model):
         w = c.split()
         if md:
             pages = (int(md['hi'], 16) - int(md['lo'], 16)) // int(d['page'], 16)
+            end = (int(md['start'], 16) + int(md['len'], 16)) % int(d['page'], 16)
             chk.dist('patch_cases', '%s:%d page%s' % (w[0], pages, '' if pages == 1 else 's'))
-        why = None
-        if 'CRASH' in o:
-            why = 'the patch faults (%s): the page of its last byte was not made writable' % o.split()[-1]
-        elif not md or 'start' not in d:
-            why = 'no answer'
-        elif d.get('nreq') != '1':
-            why = '%s write-enable requests for one patch' % d.get('nreq')
-        elif covered(d) != (int(md['lo'], 16), int(md['hi'], 16)):
-            # (compared as page ranges: a request written differently that covers the same pages is the same request)
-            why = 'write-enable request (start %s, len %s) covers pages [%x, %x), the verified model [%s, %s)' % (
-                (d['start'], d['len']) + covered(d) + (md['lo'], md['hi']))
-        elif d.get('ok') != '1':
-            why = 'the patched bytes do not read back / neighbouring bytes changed'
+            chk.dist('patch_end', '%s:%s' % (w[0], 'at page end' if end == 0 else '1 before page end' if end == int(d['page'], 16) - 1
+                                                else '1 after page end' if end == 1 else 'inside'))
+        why = judge(c, o, m)
         if why and found < 2:
             found += 1
             chk.finding('patch:' + c.replace(' ', '_'), dict(kind='patch', case=c, impl=o, model=m),
@@ -101,6 +157,11 @@ def run(chk, model):
 
 def replay_case(chk, model, rp):
     impl = vlib.build_harness('c03_patch', ['c03_patch.c'], units=('mir',))
-    rc, out, err = vlib.run_lines(impl, [rp['case']])
-    print(rp['case'], '->', out)
-    return 1 if ('CRASH' in ' '.join(out) or 'ok=1' not in ' '.join(out)) else 0
+    rc, out, err = vlib.run_lines(impl, [rp['case']], timeout=10)
+    if rc == 124 or not out:
+        print(rp['case'], '-> HANG' if rc == 124 else '-> no answer')
+        return 1
+    rc2, mout, merr = vlib.run_lines(model, [model_line(rp['case'], out[0])], timeout=60)
+    why = judge(rp['case'], out[0], mout[0] if mout else '')
+    print(rp['case'], '->', out[0], '| model:', mout[0] if mout else '', '|', why or 'agrees')
+    return 1 if why else 0
